@@ -27,7 +27,7 @@ def gen(rng, ctx):
         ni = 5 if not big else 6
     ng = rng.randint(1, 9 if not big else 13)
     force = (rng.choice(G.GATESN), rng.choice([1, 2, 3, 4, 5])) if rng.random() < 0.5 else None
-    cd = G.rand_circuit(rng, ni, ng, max_fanin=5, p_wide=0.3, p_const=0.25, force=force, allow_x=rng.random() < 0.05)
+    cd = G.rand_circuit(rng, ni, ng, max_fanin=5, p_wide=0.3, p_const=0.25, force=force, allow_x=rng.random() < 0.05, p_large=0.05)
     kind = "plain"
     if rng.random() < 0.25:
         names = [n for n, _, _ in cd["nodes"]]
